@@ -307,6 +307,13 @@ func (e *Exec) isStableComp(comp string) bool {
 	if e.Opt.Contracts == nil {
 		return false
 	}
+	if strings.HasPrefix(comp, "A_") && e.Root != nil {
+		// option callbacks-keep-arrays (assumed, listed): the functions handed in as :key / :test do not modify
+		// any list or vector, so the contents of backing arrays survive the dynamic calls of this function
+		if c := e.Opt.Contracts.ByFunc[FuncName(e.Root)]; c != nil && c.Options["callbacks-keep-arrays"] {
+			return true
+		}
+	}
 	for _, ss := range e.Opt.Contracts.StableStructs {
 		if strings.HasPrefix(comp, "F_"+sanitize(ss)+"_") {
 			return true
@@ -320,6 +327,20 @@ func (e *Exec) newEpoch(st *State) {
 	old := e.heapRead(st, "$alloc", SInt)
 	e.epochN++
 	keep := map[string]*Term{}
+	if e.Opt.Contracts != nil && e.isStableComp("A_") {
+		for k, t := range st.heap {
+			if strings.HasPrefix(k, "A_") && t != nil && t.S != "" {
+				keep[k] = t
+			}
+		}
+		for comp, srt := range e.epochComps[st.epoch] {
+			if strings.HasPrefix(comp, "A_") {
+				if _, ok := st.heap[comp]; !ok {
+					keep[comp] = &Term{fmt.Sprintf("%s!e%d", comp, st.epoch), srt}
+				}
+			}
+		}
+	}
 	if e.Opt.Contracts != nil {
 		for _, ss := range e.Opt.Contracts.StableStructs {
 			pre := "F_" + sanitize(ss) + "_"
